@@ -241,8 +241,19 @@ def run_check(prop, pid, tier, seed):
                     c.t1 = r
                     if r != 0:
                         t1_bad.append(c)
+                # --- T2: implementation outputs vs the exact (rational) instance of the model, property tolerance
+                pv = []
+                if hasattr(prop, "t2_checker"):
+                    t2cases = [c for c in cases if prop.t2_select(c)]
+                    t2 = coq_check_cases(t2cases, pid + "t2", checker=prop.t2_checker,
+                                         extra_header="From TA Require Import XQ Run2.\n", timeout=2400)
+                    ctx.stats["t2_cases"] = len(t2cases)
+                    for c, r in zip(t2cases, t2):
+                        c.t2 = r
+                        if r != 0:
+                            pv.append(prop.t2_violation(ctx, c, r))
                 # --- property predicates evaluated on the implementation's own outputs
-                pv = prop.check_impl(ctx, cases)
+                pv += prop.check_impl(ctx, cases)
                 violations.extend(pv)
                 if t1_bad and not any(v.kind == "property" for v in pv):
                     # correspondence broken, no property failure among the generated cases: escalate the search
